@@ -174,16 +174,16 @@ func runRewardCase(c *core.Ctx, p *core.Plan, rc *RewardCase) {
 		// happens while clearing): nothing was attributed as paid
 		c.Check()
 		c.Probe("c27-direct/refused")
-		if strings.Contains(derr.Error(), "more than reward limit") && rc.Reward <= 1<<53 && total.IsInt64() && total.Int64() <= 1<<53 {
-			cls := ""
-			if total.Sign() == 0 {
-				cls = "/zero-votes-in-snapshot"
-			} else if len(cur) > nCRC+rc.NNorm {
-				cls = "/more-arbiters-than-seats"
-			} else if len(cur) < nCRC+rc.NNorm {
-				cls = "/fewer-arbiters-than-seats"
+		if strings.Contains(derr.Error(), "more than reward limit") {
+			class := rewardClass(rc, total, len(cur), nCRC)
+			if class == "/beyond-supply" {
+				return // float rounding beyond what can exist, and refused: nothing attributed
 			}
-			c.Violate("C27", "distribution", fmt.Sprintf("C27/direct/era%d%s/rule-exceeds-pool-and-is-refused", rc.Era, cls),
+			sg := fmt.Sprintf("C27/direct/era%d/rule-exceeds-pool-and-is-refused", rc.Era)
+			if class != "" {
+				sg = fmt.Sprintf("C27/direct/era%d%s", rc.Era, class)
+			}
+			c.Violate("C27", "distribution", sg,
 				"%s: the era's rule attributed more than the pool; distributeDPOSReward refused it (%v) - a node clearing this round would stop", what, derr)
 		}
 		return
@@ -194,26 +194,25 @@ func runRewardCase(c *core.Ctx, p *core.Plan, rc *RewardCase) {
 		realp = &real
 	}
 	sig := fmt.Sprintf("C27/direct/era%d", rc.Era)
-	// float64 holds sela amounts exactly up to 2^53 (9.0e15), more than the
-	// 3.4e15 sela that can ever exist; what only goes wrong beyond that is
-	// reported as a class of its own.
-	if rc.Reward > 1<<53 || !total.IsInt64() || total.Int64() > 1<<53 {
-		sig += "/beyond-supply"
-	}
-	switch seats := nCRC + rc.NNorm; {
+	class := rewardClass(rc, total, len(cur), nCRC)
+	checkDistribution(c, sig, class, what, pool, round, change, realp)
+}
+
+// rewardClass names the shape of a direct case: the cause a failure is filed
+// under. float64 holds sela amounts exactly up to 2^53 (9.0e15), more than
+// the 3.4e15 sela that can ever exist; what only goes wrong beyond that is a
+// class of its own.
+func rewardClass(rc *RewardCase, total *big.Int, nCur, nCRC int) string {
+	seats := nCRC + rc.NNorm
+	switch {
 	case total.Sign() == 0:
-		sig += "/zero-votes-in-snapshot"
-	case len(cur) < seats:
-		sig += "/fewer-arbiters-than-seats"
-	case len(cur) > seats:
-		sig += "/more-arbiters-than-seats"
+		return "/zero-votes-in-snapshot"
+	case rc.Reward > 1<<53 || !total.IsInt64() || total.Int64() > 1<<53:
+		return "/beyond-supply"
+	case rc.Era >= 2 && nCur < seats: // only rules V2/V3 share the confirm reward by seats
+		return "/fewer-arbiters-than-seats"
+	case rc.Era >= 2 && nCur > seats:
+		return "/more-arbiters-than-seats"
 	}
-	if rc.Via == 1 && change < 0 {
-		// the rule alone exceeded the pool; distributeDPOSReward refuses such
-		// a result (and the node stops), so nothing is attributed as paid.
-		c.Check()
-		c.Probe("c27-direct/rule-exceeds-pool-guarded-by-entry")
-		return
-	}
-	checkDistribution(c, sig, what, pool, round, change, realp)
+	return ""
 }
